@@ -1,3 +1,4 @@
-import CashewsVerif.Driver.Tx
-/- Driver for C03 (shared with C04): see CashewsVerif/Driver/Tx.lean for the protocol. -/
-def main : IO Unit := CashewsVerif.TxDriver.run
+import CashewsVerif.Driver.TxRead
+/- Driver for C03 (shared with C04): see CashewsVerif/Driver/Tx.lean for the protocol and Driver/TxRead.lean for
+   the reads with a caller-supplied default (`get <k> d=<val>`). -/
+def main : IO Unit := CashewsVerif.TxDriver.runD
